@@ -128,10 +128,10 @@ type nVal struct {
 }
 
 type nFuncVal struct {
-	std  *types.Func   // standard library function
-	decl *Func         // module function with a body
-	lit  *ast.FuncLit  // function literal
-	info *types.Info   // for lit
+	std  *types.Func  // standard library function
+	decl *Func        // module function with a body
+	lit  *ast.FuncLit // function literal
+	info *types.Info  // for lit
 	env  map[types.Object]*nVal
 }
 
@@ -695,6 +695,42 @@ func (ev *nEval) expr(info *types.Info, env map[types.Object]*nVal, e ast.Expr) 
 		ev.leave(n.Pos(), "operator %s is not modelled", n.Op)
 	case *ast.CallExpr:
 		return ev.call(info, env, n)
+	case *ast.IndexExpr:
+		// a table of constants (a package-level array or slice that nothing assigns) indexed by a known integer
+		if id, ok := unparen(n.X).(*ast.Ident); ok {
+			if pv, ok := info.Uses[id].(*types.Var); ok && pv.Pkg() != nil && pv.Parent() == pv.Pkg().Scope() {
+				if init, pinfo := ev.pkgVarInit(pv); init != nil {
+					if cl, ok := unparen(init).(*ast.CompositeLit); ok {
+						iv := ev.expr(info, env, n.Index)
+						if iv.kind != nvAff || !iv.isConst() || !iv.c.IsInt() || iv.scale != 0 {
+							ev.leave(n.Pos(), "table index is not a known integer")
+						}
+						i := iv.c.Num().Int64()
+						if i < 0 || i >= int64(len(cl.Elts)) {
+							ev.leave(n.Pos(), "table index %d is out of range (the built-in would panic)", i)
+						}
+						el := cl.Elts[i]
+						if _, keyed := el.(*ast.KeyValueExpr); keyed {
+							ev.leave(n.Pos(), "keyed table literal is not modelled")
+						}
+						tv, ok := pinfo.Types[el]
+						if !ok || tv.Value == nil {
+							ev.leave(n.Pos(), "table element is not a constant")
+						}
+						cv := ev.constVal(tv, n.Pos())
+						// the entry for the number of places itself: 10^places, the symbol P
+						if iv.plc == 1 && i >= 0 && i <= 20 && cv.kind == nvAff {
+							p10 := new(big.Rat).SetInt(new(big.Int).Exp(big.NewInt(10), big.NewInt(i), nil))
+							if cv.c.Cmp(p10) == 0 {
+								return &nVal{kind: nvAff, a: new(big.Rat), b: new(big.Rat), c: rat(1, 1), scale: 1}
+							}
+						}
+						return cv
+					}
+				}
+			}
+		}
+		ev.leave(n.Pos(), "index expression outside a constant table")
 	case *ast.FuncLit:
 		return &nVal{kind: nvFunc, fn: &nFuncVal{lit: n, info: info, env: env}}
 	case *ast.SelectorExpr:
@@ -1314,8 +1350,8 @@ func (ev *nEval) assign(info *types.Info, env map[types.Object]*nVal, n *ast.Ass
 
 type nResult struct {
 	region nRegion
-	val    *nVal   // nil when the interpretation left the domain
-	left   string  // why
+	val    *nVal  // nil when the interpretation left the domain
+	left   string // why
 	leftAt token.Pos
 	nonDy  bool
 }
